@@ -1,6 +1,6 @@
 (* C02 - lemmas: everything the reader can produce is what the writer needs (under the five guards),
    hence re-saving is lossless and stable (by the C01 round trip of Psd/Proofs.v). *)
-From PsdV Require Import Base.Prelude Psd.Codec Psd.Model Psd.Proofs Psd.Corr Psd.Resave.
+From PsdV Require Import Base.Prelude Psd.Codec Psd.Model Psd.Proofs Psd.Resave.
 From Coq Require Import ZArith List Bool Lia ZifyBool.
 Import ListNotations.
 Open Scope Z_scope.
